@@ -53,3 +53,64 @@ Theorem C09_op_ws : forall a op b w w', plain true op = true -> op <> EmptyStrin
 Proof. exact parse_expr_op_ws. Qed.
 Print Assumptions C09_leading_ws. Print Assumptions C09_trailing_ws. Print Assumptions C09_ws_run.
 Print Assumptions C09_delim_ws. Print Assumptions C09_op_ws.
+
+(* ==== T1 tie (syntax layer) ==== *)
+Require Import PyDict PyLoop PySyntax TermGen SyntaxGen SyntaxGenBase SyntaxGenTermList SyntaxGenAbsTerm SyntaxGenAbsTermList SyntaxGenSerializer SyntaxGenGrammar SyntaxGenFold.
+(* T1 tie: the syntax classes of syntax/data.py, the 23 parse actions of syntax/grammar.py and serializer._expression_to_polyhedral_terms as translated ON THIS RUN (gen/SyntaxGen.v) ARE model/Syntax.v: replaying the generated parse actions bottom-up over any syntax tree and converting the result gives exactly fold_expr. proofs/SyntaxGen*.v *)
+Theorem C09_code_fold_expr :
+  forall (star : bool) (str_rep : string) (e : expr),
+       ' x <- g_expr star e;; serializer_expression_to_polyhedral_terms str_rep x = fold_expr e.
+Proof. exact @g_fold_expr_eq. Qed.
+Print Assumptions C09_code_fold_expr.
+Theorem C09_code_parse_actions :
+  forall (star : bool) (e : expr), mmap to_sexpr (g_expr star e) = Syntax.parse_expr e.
+Proof. exact @g_expr_eq. Qed.
+Print Assumptions C09_code_parse_actions.
+Theorem C09_code_same_term_list :
+  forall a b : gabs, PolyhedralSyntaxAbsoluteTerm_same_term_list a b = same_term_list (to_sabs a) (to_sabs b).
+Proof. exact @same_term_list_eq. Qed.
+Print Assumptions C09_code_same_term_list.
+Theorem C09_code_combine_optional_floats :
+  forall f1 f2 : option Q, data_combine_optional_floats f1 f2 = combine_optional_floats f1 f2.
+Proof. exact @combine_optional_floats_eq. Qed.
+Print Assumptions C09_code_combine_optional_floats.
+Theorem C09_code_expand :
+  forall a : gatl,
+       gwfatl a -> mmap (map to_stl) (PolyhedralSyntaxAbsoluteTermList_expand a) = Py.ret (satl_expand (to_satl a)).
+Proof. exact @satl_expand_eq. Qed.
+Print Assumptions C09_code_expand.
+Theorem C09_code_leq_expression :
+  forall (s : string) (e : PolyhedralSyntaxIneqExpression),
+       Forall gwfatl (PolyhedralSyntaxIneqExpression_sides e) ->
+       serializer_leq_expression_to_polyhedral_terms s e =
+       ineq_expression_to_polyhedral_terms OpLeq (map to_satl (PolyhedralSyntaxIneqExpression_sides e)).
+Proof. exact @leq_expression_eq. Qed.
+Print Assumptions C09_code_leq_expression.
+Theorem C09_code_geq_expression :
+  forall (s : string) (e : PolyhedralSyntaxIneqExpression),
+       Forall gwfatl (PolyhedralSyntaxIneqExpression_sides e) ->
+       serializer_geq_expression_to_polyhedral_terms s e =
+       ineq_expression_to_polyhedral_terms OpGeq (map to_satl (PolyhedralSyntaxIneqExpression_sides e)).
+Proof. exact @geq_expression_eq. Qed.
+Print Assumptions C09_code_geq_expression.
+Theorem C09_code_eql_expression :
+  forall e : PolyhedralSyntaxEqlExpression,
+       gwfs (PolyhedralSyntaxEqlExpression_lhs e) ->
+       gwfs (PolyhedralSyntaxEqlExpression_rhs e) ->
+       serializer_eql_expression_to_polyhedral_terms e =
+       Py.ret
+         (eql_expression_to_polyhedral_terms (to_stl (PolyhedralSyntaxEqlExpression_lhs e))
+            (to_stl (PolyhedralSyntaxEqlExpression_rhs e))).
+Proof. exact @eql_expression_eq. Qed.
+Print Assumptions C09_code_eql_expression.
+Theorem C09_code_arithmetic_chain :
+  forall (a : Q) (l : list (aop * Q)),
+       grammar_parse_arithmetic_chain (G (TokFloat a :: chain_toks l)) =
+       mmap TokFloat (Syntax.ceval (chain_tree (CNum a) l)).
+Proof. exact @parse_arithmetic_chain_eq. Qed.
+Print Assumptions C09_code_arithmetic_chain.
+Theorem C09_code_expression_to_terms :
+  forall (s : string) (e : gexpr),
+       gwf_expr e -> serializer_expression_to_polyhedral_terms s e = expression_to_polyhedral_terms (to_sexpr e).
+Proof. exact @expression_to_polyhedral_terms_eq. Qed.
+Print Assumptions C09_code_expression_to_terms.
